@@ -1,10 +1,12 @@
 import KafkaModel.Model.Net
 import KafkaModel.Model.Producer
+import KafkaModel.Lemmas.Wire
+import KafkaModel.Spec.Proto
 /-!
   C15 — An exchange is complete or fails; a reply is never credited to another request.
 -/
 namespace Kafka.Props.C15
-open Kafka Kafka.Model
+open Kafka Kafka.Model Kafka.Spec
 
 /-- whatever the stream does, one `write` call accepts a prefix of the buffer and reports its length honestly -/
 theorem write_spec (s : Stream) (buf : Bytes) (s' : Stream) (n : Nat) (h : s.write buf = (s', .ok n)) :
@@ -287,5 +289,154 @@ theorem C15_broken_replaced {σ} (env : Env σ) (host : Bytes) (w : W σ) (hp : 
 /-! ### non-vacuity -/
 example : (writeAll 4 { wscript := [.accept 1, .accept 0, .accept 5] } [1, 2, 3]).1.accepted = [1, 2, 3] := by decide
 example : (writeAll 4 { wscript := [.accept 1, .fail] } [1, 2, 3]).1.accepted = [1] := by decide
+
+/-! ### the other direction: a stream that only splits never makes a call fail -/
+
+/-- a stream whose write side never fails (it may accept as little as one byte per call) -/
+def BenignW (s : Stream) : Prop := ∀ a ∈ s.wscript, ∃ k, a = WAct.accept k
+/-- a stream whose read side never fails or ends (it may hand over as little as one byte per call) -/
+def BenignR (s : Stream) : Prop := ∀ a ∈ s.rscript, ∃ k, a = RAct.give k
+
+theorem writeAll_benign : ∀ (fuel : Nat) (s : Stream) (buf : Bytes), BenignW s → buf.length ≤ fuel →
+    ∃ s', writeAll fuel s buf = (s', .ok ()) ∧ s'.accepted = s.accepted ++ buf ∧ s'.incoming = s.incoming ∧
+      s'.rscript = s.rscript ∧ BenignW s' := by
+  intro fuel
+  induction fuel with
+  | zero =>
+    intro s buf hb hl
+    have : buf = [] := List.eq_nil_of_length_eq_zero (by omega)
+    subst this
+    exact ⟨s, by simp [writeAll], by simp, rfl, rfl, hb⟩
+  | succ f ih =>
+    intro s buf hb hl
+    by_cases he : buf.isEmpty
+    · have : buf = [] := List.isEmpty_iff.mp he
+      subst this
+      exact ⟨s, by simp [writeAll], by simp, rfl, rfl, hb⟩
+    · have hpos : 0 < buf.length := by
+        cases buf with
+        | nil => simp at he
+        | cons _ _ => simp
+      simp only [writeAll, he, Bool.false_eq_true, if_false]
+      cases hw : s.wscript with
+      | nil =>
+        have hwr : s.write buf = ({ s with accepted := s.accepted ++ buf }, .ok buf.length) := by simp [Stream.write, hw]
+        rw [hwr]
+        have hn : ¬ buf.length = 0 := by omega
+        simp only [hn, if_false, List.drop_length]
+        obtain ⟨s', h1, h2, h3, h4, h5⟩ := ih { s with accepted := s.accepted ++ buf } [] (by simpa [BenignW, hw] using hb) (by simp)
+        exact ⟨s', h1, by simpa using h2, h3, h4, h5⟩
+      | cons a r =>
+        obtain ⟨k, rfl⟩ := hb a (by simp [hw])
+        have hwr : s.write buf = ({ s with wscript := r, accepted := s.accepted ++ buf.take (min (max k 1) buf.length) }, .ok (min (max k 1) buf.length)) := by
+          simp [Stream.write, hw]
+        rw [hwr]
+        have hn : ¬ min (max k 1) buf.length = 0 := by omega
+        simp only [hn, if_false]
+        obtain ⟨s', h1, h2, h3, h4, h5⟩ := ih { s with wscript := r, accepted := s.accepted ++ buf.take (min (max k 1) buf.length) }
+          (buf.drop (min (max k 1) buf.length)) (by
+            intro a ha; exact hb a (by simp [hw]; right; exact ha)) (by simp; omega)
+        refine ⟨s', h1, ?_, h3, h4, h5⟩
+        rw [h2]; simp [List.append_assoc]
+
+
+theorem readExact_benign : ∀ (fuel : Nat) (s : Stream) (n : Nat) (acc : Bytes), BenignR s → acc.length ≤ n → n - acc.length ≤ fuel →
+    n - acc.length ≤ s.incoming.length →
+    ∃ s', readExact fuel s n acc = (s', .ok (acc ++ s.incoming.take (n - acc.length))) ∧
+      s'.incoming = s.incoming.drop (n - acc.length) ∧ s'.accepted = s.accepted ∧ s'.wscript = s.wscript ∧ BenignR s' := by
+  intro fuel
+  induction fuel with
+  | zero =>
+    intro s n acc hb hle hf _
+    have : acc.length = n := by omega
+    refine ⟨s, ?_, ?_, rfl, rfl, hb⟩
+    · simp [readExact, this]
+    · simp [this]
+  | succ f ih =>
+    intro s n acc hb hle hf hin
+    by_cases hdone : acc.length ≥ n
+    · have : n - acc.length = 0 := by omega
+      refine ⟨s, ?_, ?_, rfl, rfl, hb⟩
+      · simp [readExact, hdone, this]
+      · simp [this]
+    · simp only [readExact, hdone, if_false]
+      have hw : 0 < n - acc.length := by omega
+      have hne : s.incoming.isEmpty = false := by
+        cases hh : s.incoming with
+        | nil => rw [hh] at hin; simp at hin; omega
+        | cons _ _ => rfl
+      -- what one read call hands over: `m` bytes, 1 ≤ m ≤ wanted
+      have key : ∃ m r', 0 < m ∧ m ≤ n - acc.length ∧
+          s.read (n - acc.length) = ({ s with rscript := r', incoming := s.incoming.drop m }, .ok (s.incoming.take m)) ∧
+          (∀ a ∈ r', ∃ k, a = RAct.give k) := by
+        cases hr : s.rscript with
+        | nil =>
+          refine ⟨n - acc.length, [], hw, Nat.le_refl _, ?_, by simp⟩
+          simp [Stream.read, hr, hne]
+        | cons a r =>
+          obtain ⟨k, rfl⟩ := hb a (by simp [hr])
+          refine ⟨min (max k 1) (n - acc.length), r, by omega, Nat.min_le_right _ _, ?_, fun a ha => hb a (by simp [hr]; right; exact ha)⟩
+          simp [Stream.read, hr]
+      obtain ⟨m, r', hm0, hmle, hread, hr'⟩ := key
+      rw [hread]
+      have hgot : (s.incoming.take m).isEmpty = false := by
+        cases hh : s.incoming with
+        | nil => rw [hh] at hne; simp at hne
+        | cons x xs => cases m with
+          | zero => omega
+          | succ m => simp
+      simp only [hgot, Bool.false_eq_true, if_false]
+      have hlen : (s.incoming.take m).length = m := by simp; omega
+      obtain ⟨s', h1, h2, h3, h4, h5⟩ := ih { s with rscript := r', incoming := s.incoming.drop m } n (acc ++ s.incoming.take m) hr'
+        (by simp only [List.length_append, hlen]; omega) (by simp only [List.length_append, hlen]; omega)
+        (by simp only [List.length_append, hlen, List.length_drop]; omega)
+      refine ⟨s', ?_, ?_, h3, h4, h5⟩
+      · rw [h1]
+        simp only [List.length_append, hlen, List.append_assoc]
+        congr 2
+        have e : n - acc.length = m + (n - (acc.length + m)) := by omega
+        rw [e, List.take_add]
+      · rw [h2]
+        simp only [List.length_append, hlen, List.drop_drop]
+        congr 1; omega
+
+/-- **chunking is transparent**: however a stream that does not fail splits the request into accepted writes and the reply
+    into reads (down to one byte per call), the exchange succeeds with exactly the reply the peer sent, the whole request
+    has been handed over, and what the peer sent after that reply is still there for the next call -/
+theorem C15_chunking_transparent (s : Stream) (frame payload rest : Bytes) (hw : BenignW s) (hr : BenignR s)
+    (hlen : payload.length ≤ 2147483647) (hin : s.incoming = eI32 (payload.length : Int) ++ payload ++ rest) :
+    ∃ s', exchange s frame true = (s', .ok (some payload)) ∧ s'.accepted = s.accepted ++ frame ∧ s'.incoming = rest := by
+  unfold exchange
+  obtain ⟨s1, h1, ha1, hi1, hr1, _⟩ := writeAll_benign (frame.length + 1) s frame hw (by omega)
+  rw [h1]
+  simp only [Bool.not_true, Bool.false_eq_true, if_false]
+  unfold getResponse
+  have hb1 : BenignR s1 := by intro a ha; rw [hr1] at ha; exact hr a ha
+  have hsz : (eI32 (payload.length : Int)).length = 4 := by simp [eI32, encI, be_length]
+  obtain ⟨s2, h2, hi2, ha2, _, hb2⟩ := readExact_benign 5 s1 4 [] hb1 (by simp) (by simp) (by rw [hi1, hin]; simp [hsz])
+  rw [h2]
+  simp only [List.nil_append, List.length_nil, Nat.sub_zero]
+  have htake : s1.incoming.take 4 = eI32 (payload.length : Int) := by
+    rw [hi1, hin, List.append_assoc, ← hsz, List.take_left']; rfl
+  have hdrop : s2.incoming = payload ++ rest := by
+    simp only [List.length_nil, Nat.sub_zero] at hi2
+    rw [hi2, hi1, hin, List.append_assoc, ← hsz, List.drop_left']; rfl
+  rw [htake]
+  have hdec : decI (eI32 (payload.length : Int)) = (payload.length : Int) :=
+    decI_encI 4 (by decide) _ (by unfold inI; simp; omega)
+  rw [hdec]
+  have hneg : ¬ ((payload.length : Int) < 0) := by omega
+  simp only [hneg, if_false, Int.toNat_natCast]
+  obtain ⟨s3, h3, hi3, ha3, _, _⟩ := readExact_benign (payload.length + 1) s2 payload.length [] hb2 (by simp) (by simp) (by rw [hdrop]; simp)
+  rw [h3]
+  simp only [List.nil_append, List.length_nil, Nat.sub_zero] at hi3 ⊢
+  refine ⟨s3, ?_, ?_, ?_⟩
+  · rw [hdrop, List.take_left']; rfl
+  · rw [ha3, ha2, ha1]
+  · rw [hi3, hdrop, List.drop_left']; rfl
+
+-- non-vacuity: one byte per write, one byte per read
+example : BenignW { wscript := [.accept 1, .accept 1, .accept 2] } ∧ BenignR { rscript := [.give 1, .give 1, .give 3] } := by
+  constructor <;> intro a ha <;> simp at ha <;> rcases ha with rfl | rfl | rfl <;> exact ⟨_, rfl⟩
 
 end Kafka.Props.C15
